@@ -356,23 +356,34 @@ def check_poll_protocol(ctx):
             i_ = strip_casts(dg.expr(gc["args"][1]))
             if "wakers" in base_ and i_[:2] == ("param", 2): slot_locals.add(gc["dst"]["l"])
     def _root(l, depth=0):
-        """the slot local a reference was derived from (`&((*slot) as Some).0`, re-borrows, copies)"""
-        while depth < 10 and l is not None and l not in slot_locals:
+        """the slot local a reference / value was derived from (`&((*slot) as Some).0`, re-borrows, copies, a clone of the slot's Option or of its waker):
+        (slot local, block where the slot's content was observed through a clone -- None when it is read in place)"""
+        seen_at = None
+        while depth < 12 and l is not None and l not in slot_locals:
             d = body.single_def(l)
-            if d is None or d[1] == "T": return None
+            if d is None: return None
             rv = d[2]
-            if rv[0] in ("Ref", "RawPtr"): l = rv[2]["l"]
+            if d[1] == "T":
+                c_ = rv[1] if rv[0] == "CallRes" else None
+                if c_ is not None and c_.get("fname") in ("clone", "cloned", "as_ref", "as_deref") and c_["args"]:
+                    if c_.get("fname") in ("clone", "cloned") and seen_at is None: seen_at = d[0]
+                    l = op_local(c_["args"][0])
+                else: return None
+            elif rv[0] in ("Ref", "RawPtr"): l = rv[2]["l"]
             elif rv[0] == "Use" and rv[1][0] in ("c", "m"): l = rv[1][1]["l"]
             else: return None
             depth += 1
-        return l
+        return (l, seen_at) if l is not None else None
+    unlocks_ = [b for (b, c_) in body.calls if (c_.get("resolved") or c_.get("f")) == R.SPIN_UNLOCK]
+    def _locked_at(b):
+        return any(body.dominates(lb, b) for (lb, _) in lk) and not any(body.dominates(ub_, b) for ub_ in unlocks_)
     slot_tests = []
     for b in sorted(body.reachable):
         vs = util.variant_switch(body, dg, b)
-        if not vs or _root(vs[3]) is None: continue
+        r_ = _root(vs[3]) if vs else None
+        if not vs or r_ is None: continue
         some_t, none_t = util.arm(vs[1], vs[2], 1), util.arm(vs[1], vs[2], 0)
-        locked = any(body.dominates(lb, b) for (lb, _) in lk) and not any(body.dominates(ub_, b) for (ub_, c_) in body.calls if (c_.get("resolved") or c_.get("f")) == R.SPIN_UNLOCK)
-        slot_tests.append((b, some_t, none_t, locked))
+        slot_tests.append((b, some_t, none_t, _locked_at(r_[1] if r_[1] is not None else b)))
     wake_ok = {wb for (wb, wc) in wk if _root(op_local(wc["args"][0])) is not None}
     cut_edges = {(tb, none_t) for (tb, some_t, none_t, locked) in slot_tests if locked and some_t != none_t}
     seen_, st_ = set(), [0]
